@@ -33,7 +33,7 @@ class Check:
         atexit.register(lambda: shutil.rmtree(self.tmp, ignore_errors=True))
         self.specdir = os.path.join(self.tmp, "spec")
         os.makedirs(self.specdir)
-        for d in ("", "mc", "trace", "sim"):
+        for d in ("", "mc", "trace", "sim", "proofs"):
             p = os.path.join(SPEC, d)
             if os.path.isdir(p):
                 for f in os.listdir(p):
@@ -86,6 +86,19 @@ class Check:
         self.mc.append(res)
         log("TLC %s/%s: %s generated, %s distinct, %.1fs" % (module, cfg, res.get("generated"), res.get("distinct"), res["wall_s"]))
         res["out"] = out
+        return res
+
+    def tlaps(self, module, timeout=900):
+        """Check a TLAPS proof module (unbounded statement about a spec); failure is a machinery/spec error, not a verdict."""
+        t = time.time()
+        p = subprocess.run(["timeout", str(timeout), "tlapm", "--threads", str(min(NCPU, 8)), "--cleanfp", module + ".tla"],
+                           cwd=self.specdir, stdout=subprocess.PIPE, stderr=subprocess.STDOUT, text=True)
+        m = re.search(r"All (\d+) obligations? proved", p.stdout)
+        if not m:
+            raise Machinery("TLAPS proof %s not checked (rc=%s):\n%s" % (module, p.returncode, tail(p.stdout, 30)))
+        res = dict(module=module, cfg="(tlapm)", obligations_proved=int(m.group(1)), wall_s=round(time.time() - t, 1), rc=0)
+        self.mc.append(res)
+        log("TLAPS %s: %s obligations proved, %.1fs" % (module, m.group(1), res["wall_s"]))
         return res
 
     def schedules_from_graph(self, module, cfg, maxlen=60, maxwalks=None, shuffle=True, skip="", timeout=900):
